@@ -98,6 +98,27 @@ def effects_of(eng: Engine, fn: FuncInfo) -> list[dict]:
     def conds(node) -> list[str]:
         return sorted({('' if pol else 'not ') + unparse(e) for e, pol, _ in eng.guards_at(fn, node)})
 
+    def drop_presence_tests(eff: dict, node) -> dict:
+        """`if k in d: del d[k]` and `try: del d[k] except KeyError` have the same effect on the replica (remove if present); the
+        same for `if k not in s: s.add(k)`.  A guard that only tests the presence of the affected element in the affected container
+        is not part of the effect."""
+        if eff['kind'] not in ('ADD', 'REMOVE'):
+            return eff
+        keep = []
+        for e, pol, _ in eng.guards_at(fn, node):
+            a = cmp_atom(e)
+            txt = ('' if pol else 'not ') + unparse(e)
+            if a and a[0] == 'in' and isinstance(a[2], ast.Attribute) and a[2].attr == eff['field'] and target_of(fn, a[2].value) == eff['on'] and \
+                    pol == (eff['kind'] == 'REMOVE'):
+                v = value_class(fn, a[1])
+                if v.startswith('local:') or '.name' in v:
+                    v = target_of(fn, a[1].value) + '.name' if isinstance(a[1], ast.Attribute) else v
+                if v == eff['value'] or value_class(fn, a[1]) == eff['value']:
+                    continue
+            keep.append(txt)
+        eff['if'] = sorted(set(keep))
+        return eff
+
     def loops(node) -> list[str]:
         return [unparse(a.iter) for a in ancestors(node) if isinstance(a, ast.For)]
     for n in walk_local(fn.node):
@@ -117,8 +138,8 @@ def effects_of(eng: Engine, fn: FuncInfo) -> list[dict]:
         elif isinstance(n, ast.Delete):
             for t in n.targets:
                 if isinstance(t, ast.Subscript) and isinstance(t.value, ast.Attribute):
-                    out.append({'on': target_of(fn, t.value.value), 'field': t.value.attr, 'kind': 'REMOVE', 'value': value_class(fn, t.slice), 'if': conds(n),
-                                'each': loops(n)})
+                    out.append(drop_presence_tests({'on': target_of(fn, t.value.value), 'field': t.value.attr, 'kind': 'REMOVE', 'value': value_class(fn, t.slice),
+                                                    'if': conds(n), 'each': loops(n)}, n))
         elif isinstance(n, ast.AugAssign) and isinstance(n.target, ast.Attribute):
             kind = 'REMOVE' if isinstance(n.op, ast.Sub) else 'ADD' if isinstance(n.op, (ast.BitOr, ast.Add)) else 'SET'
             out.append({'on': target_of(fn, n.target.value), 'field': n.target.attr, 'kind': kind, 'value': value_class(fn, n.value), 'if': conds(n), 'each': loops(n)})
@@ -136,8 +157,21 @@ def effects_of(eng: Engine, fn: FuncInfo) -> list[dict]:
                 vc = value_class(fn, v)
                 if vc.startswith('local:') or '.name' in vc:
                     vc = target_of(fn, v.value) + '.name' if isinstance(v, ast.Attribute) else vc
-                out.append({'on': target_of(fn, r.value), 'field': r.attr, 'kind': kind, 'value': vc, 'if': conds(n), 'each': loops(n)})
+                out.append(drop_presence_tests({'on': target_of(fn, r.value), 'field': r.attr, 'kind': kind, 'value': vc, 'if': conds(n), 'each': loops(n)}, n))
     out.sort(key=lambda d: (d['on'], d['field'], d['kind'], d['value']))
+    return out
+
+
+def event_fields(eng: Engine, evname: str) -> list[str]:
+    """Field names of an event dataclass in positional order (own annotations after those of the repo base classes)."""
+    ci = eng.repo.find_cls(evname.split('.')[-1], 'events.py')
+    if ci is None:
+        return []
+    out: list[str] = []
+    for c in reversed(eng.repo.mro(ci)):
+        for st in c.node.body:
+            if isinstance(st, ast.AnnAssign) and isinstance(st.target, ast.Name) and 'ClassVar' not in unparse(st.annotation) and st.target.id not in out:
+                out.append(st.target.id)
     return out
 
 
@@ -149,8 +183,9 @@ def event_args(eng: Engine, fn: FuncInfo) -> list[dict]:
         ev = c.args[0]
         d = {'event': unparse(ev.func), 'if': sorted({('' if pol else 'not ') + unparse(e) for e, pol, _ in eng.guards_at(fn, c)})}
         args = {}
+        fields = event_fields(eng, unparse(ev.func))
         for i, a in enumerate(ev.args):
-            args[f'#{i}'] = target_of(fn, a) if not isinstance(a, ast.Constant) else repr(a.value)
+            args[fields[i] if i < len(fields) else f'#{i}'] = target_of(fn, a) if not isinstance(a, ast.Constant) else repr(a.value)
         for k in ev.keywords:
             if k.arg in ('raw_message', 'timestamp'):
                 continue
@@ -247,6 +282,9 @@ def run(eng: Engine, ck: Check):
         clsname, msg = key.split(':')
         cls = rm if clsname == 'RoomManager' else um
         h = cls.methods[have['handler']]
+        for e_ in want['events']:        # the pinned table names positional arguments `#i`: read them as the i-th field of the event class
+            fl = event_fields(eng, e_['event'])
+            e_['args'] = {(fl[int(k_[1:])] if k_.startswith('#') and int(k_[1:]) < len(fl) else k_): v_ for k_, v_ in e_['args'].items()}
         w = sorted(json.dumps(e, sort_keys=True) for e in want['events'])
         g = sorted(json.dumps(e, sort_keys=True) for e in have['events'])
         ck.ob('R-C19-TARGET', h, h.node, f'{msg}: the emitted event carries the room and user the message was announced for '
